@@ -87,6 +87,16 @@ pub fn eval(ctx: &mut Ctx, c: &EncCase, tag: &str) {
 }
 
 pub fn run(ctx: &mut Ctx) {
+    // magnitude family: long class-pure runs on byte / power-of-two boundaries (deterministic)
+    {
+        let mut i = ctx.shard;
+        while i < inputs::magnitude_family_count() {
+            let input = inputs::magnitude_family_case(i);
+            let list = if i % 3 == 0 { "all" } else { "default" };
+            eval(ctx, &EncCase { input, list: list.into(), mask: if i % 5 == 0 { 62 } else { 63 }, macros: false, fnc1: i % 7 == 0, eci: None, order: 0, prelude: 0, skipdef: false, entry: (i % 3) as u8 }, "magnitude_family");
+            i += ctx.nshards;
+        }
+    }
     let mut item = 0usize;
     // fixed hostile configurations
     let digits = |n: usize| -> Vec<u8> { (0..n).map(|i| b'0' + (i % 10) as u8).collect() };
